@@ -8,7 +8,7 @@ Line protocol of `sqfsmodel c06` (one request per line, one answer line):
   monitor RPATH N FSENT{N} SC… → `<verdict> res@key …`       (the model's POSIX semantics applied to an
                                                              *implementation* trace: specification monitor)
 
-FLAGS  letters of C (chmod) O (chown) X (set-xattr) T (set-times), or `-`
+FLAGS  letters of C (chmod) O (chown) X (set-xattr) T (set-times) D S F L E (no-dev/sock/fifo/slink/empty-dir), or `-`
 UPATH  the raw `--unpack-path` argument in hex (`-` = empty); it is canonicalised as options.c does
 NODE   preorder: `K:NAME:PAYLOAD:PERM:UID:GID:MTIME:DEV:XATTRS:NCHILDREN`, K ∈ d f l b c p s, NAME/PAYLOAD hex
        (`-` empty), XATTRS `-` or `khex=vhex,…`; the first node is the image's root (its NAME is ignored: "")
@@ -77,11 +77,13 @@ def parseTree (toks : List String) : Option TNode := do
   | some (t, []) => some t
   | _ => none
 
-def parseFlags (s : String) : Option Flags :=
-  if s = "-" then some {} else
-  if s.toList.all (fun c => c = 'C' || c = 'O' || c = 'X' || c = 'T') then
-    some { chmod := s.toList.contains 'C', chown := s.toList.contains 'O',
-           setXattr := s.toList.contains 'X', setTimes := s.toList.contains 'T' }
+def parseFlags (s : String) : Option (Flags × TreeFlags) :=
+  if s = "-" then some ({}, {}) else
+  let l := s.toList
+  if l.all (fun c => "COXTDSFLE".toList.contains c) then
+    some ({ chmod := l.contains 'C', chown := l.contains 'O', setXattr := l.contains 'X', setTimes := l.contains 'T' },
+          { noDev := l.contains 'D', noSock := l.contains 'S', noFifo := l.contains 'F', noSlink := l.contains 'L',
+            noEmpty := l.contains 'E' })
   else none
 
 /-- options.c `get_path`: the `-u` argument goes through `canonicalize_name`; `none` = "Invalid path", exit.
@@ -135,13 +137,13 @@ def statusTok (o : Out) : String :=
   match o.err with | none => "ok" | some e => "err:" ++ errTok e
 
 /-- `get_full_hierarchy` (lookup, decode) then the plan -/
-def planFor (fl : Flags) (upath : List Bytes) (raw : TNode) : Except String Out :=
+def planFor (fl : Flags × TreeFlags) (upath : List Bytes) (raw : TNode) : Except String Out :=
   -- the image's root node is created with the name "" (read_tree.c: `create_node(inode, "")`)
   let raw0 := match raw with | .mk _ k p a ch => TNode.mk [] k p a ch
   match lookup raw0 upath with
   | .error .noEntry => .error "lookup:noEntry"
   | .error .notDir => .error "lookup:notDir"
-  | .ok sub => .ok (unpackPlan sub fl)
+  | .ok sub => .ok (unpackPlan sub fl.1 fl.2)
 
 def keyTok (k : PathC) : String :=
   if k.isEmpty then "/" else String.join (k.map (fun c => "/" ++ toHexTok c))
